@@ -34,6 +34,7 @@ class Joiner:
         self.shared = set()
         self.int_leaves = []
         self.ty_facts = []
+        self.hull_facts = []
         self.sib_anchors = {}
         self.collect_leaves = False
         self.jroots = 0
@@ -59,6 +60,15 @@ class Joiner:
         lo, hi = st.interval(lin)
         if lo is None and st.prove_ge0(lin):
             lo = 0
+        if len(lin.t) > 1:
+            # a recorded fact may bound the expression as a whole more tightly than interval arithmetic over its symbols
+            for f in st.facts:
+                d = f + lin
+                if d.is_const() and (hi is None or d.c < hi):
+                    hi = d.c            # f = c - lin >= 0
+                d = f - lin
+                if d.is_const() and (lo is None or -d.c > lo):
+                    lo = -d.c           # f = lin - c >= 0
         return lo, hi
 
     def common(self, s):
@@ -169,6 +179,14 @@ class Joiner:
             r = self.jlin(a.lin, b.lin, a.w, a.sg)
             if not r.is_const() and not (r.single() is not None and r.c == 0 and r.single()[1] == 1):
                 self.ty_facts.append((r, a.w, a.sg))
+                # the joined value as a whole stays within the hull of its two sides (e.g. `n + 1` under the guard n <= 3
+                # joined with `n` under n <= 4 is `n + d` with n + d <= 4, not just d in [0,1])
+                la_, ha_ = self.A.interval(a.lin)
+                lb_, hb_ = self.B.interval(b.lin)
+                lo_ = None if la_ is None or lb_ is None else min(la_, lb_)
+                hi_ = None if ha_ is None or hb_ is None else max(ha_, hb_)
+                if lo_ is not None or hi_ is not None:
+                    self.hull_facts.append((r, lo_, hi_))
             if self.collect_leaves and len(self.int_leaves) < 8:
                 self.int_leaves.append((a.lin, b.lin, r, a.w))
             return VInt(r, a.w, a.sg)
@@ -372,6 +390,15 @@ class Joiner:
                     out.assume_ge0(Lin.const(th) - lin)
             except Exception:
                 pass
+        for lin, lo_, hi_ in self.hull_facts:
+            l, h = out.interval(lin)
+            try:
+                if lo_ is not None and (l is None or l < lo_) and abs(lo_) < (1 << 62):
+                    out.assume_ge0(lin - lo_)
+                if hi_ is not None and (h is None or h > hi_) and abs(hi_) < (1 << 62):
+                    out.assume_ge0(Lin.const(hi_) - lin)
+            except Exception:
+                pass
         out.neqs = [d for d in A.neqs if d in B.neqs]
         out.ghost = {k: v for k, v in A.ghost.items() if B.ghost.get(k) == v}
         for k in STICKY_GHOST:
@@ -457,6 +484,8 @@ class Joiner:
                         # s1 + sign*s2 = ea   =>   s2 = sign*(ea - s1)
                         sub[s2] = (ea - Lin.sym(s1)).scale(sign)
                         break
+                    if i >= 8 or j >= 8:
+                        continue      # beyond the first few symbols only the (cheap) definitional relation is tried
                     lo, hi = _hull(A.interval(ea), B.interval(eb))
                     e = Lin.sym(s1) + Lin.sym(s2, sign)
                     if sign == -1:
@@ -475,7 +504,7 @@ class Joiner:
                                     out.facts.append(Lin.const(c) - e)
                                     break
         # three-way sums among the new symbols (Houdini-style candidate  s1 = s2 + s3, kept while inductive)
-        if 3 <= len(n) <= 6:
+        if self.keep and 3 <= len(n) <= 6:
             for i in range(len(n)):
                 for j in range(len(n)):
                     for k in range(j + 1, len(n)):
